@@ -127,15 +127,18 @@ def lineStart (f : SrcFile) (line : Int) : Res Pos :=
 def fileOffset (f : SrcFile) (p : Pos) : Res Int :=
   if p < f.base ∨ p > f.base + f.size then .panic "illegal SourcePos value" else pure (p - f.base)
 
+/-- the `LastFile` test at the top of `(*SourceFileSet).file` -/
+def cacheHit (s : FileSet) (p : Pos) : Option Nat :=
+  match s.last with
+  | none => none
+  | some li => match s.files[li]? with
+    | none => none
+    | some f => if f.base ≤ p ∧ p ≤ f.base + f.size then some li else none
+
 /-- `(*SourceFileSet).file`: index of the file containing `p` and the set with the
     updated `LastFile` cache. -/
 def fileOf (s : FileSet) (p : Pos) : Res (Option Nat × FileSet) :=
-  let hit : Option Nat := match s.last with
-    | none => none
-    | some li => match s.files[li]? with
-      | none => none
-      | some f => if f.base ≤ p ∧ p ≤ f.base + f.size then some li else none
-  match hit with
+  match cacheHit s p with
   | some li => pure (some li, s)
   | none => do
     let i ← searchFiles s.files p
